@@ -3,7 +3,7 @@
 #include "common.h"
 
 /* arena: one guarded buffer big enough for the operands at chosen offsets */
-static mp_ptr A; static mp_size_t AN;
+static __thread mp_ptr A; static __thread mp_size_t AN;
 static void arena(mp_size_t n) { AN = n; A = gbuf_alloc(n); }
 static void arena_done(void) { if (!gbuf_ok(A, AN)) outs("REDZONE"); gbuf_free(A); }
 
